@@ -12,6 +12,7 @@ from __future__ import annotations
 
 import asyncio
 import itertools
+import json
 import os
 import sys
 
@@ -44,11 +45,11 @@ LEVEL_TEXT = ("Lean 4 theorems over an executable model of Buffer history naviga
 LEVEL_NOTE = ("trusted: Lean kernel, axioms propext/Classical.choice/Quot.sound only; the hand-written model "
               "(validated by the correspondence, not proved equal to the Python); validators that look at the text only")
 RULE = ("exhaustive: every history of up to N entries over {a, ab, b, a\\nb} x typed prefix in {'', a, ab} x prefix "
-        "search on/off x every ordered pair of 17 navigation/edit/accept ops (all states printed after every op); "
+        "search on/off x every ordered pair of 17 navigation/edit/accept ops (all state printed after every op); "
         "then seeded random method-level sequences (up to 30 ops, loader items interleaved one by one, scripted "
-        "validators rejecting at positions -2..len+3, validate-while-typing on/off, several accept/reset cycles) and "
-        "seeded random key-level sessions (2-4 prompts on one PromptSession, emacs keys with numeric arguments); a "
-        "case is non-trivial when the history is non-empty and at least one navigation op moves to another entry")
+        "validators rejecting at positions -2..len+7, validate-while-typing on/off, several accept/reset cycles) and "
+        "seeded random key-level sessions (1-4 prompts on one PromptSession, emacs keys with numeric arguments); a "
+        "case is non-trivial when the history is non-empty and it contains a history navigation op")
 EXHAUSTIVE = True
 EXHAUSTIVE_SCOPE = {"quick": "histories <= 2 entries over {a,ab,b,a\\nb}, typed prefix {'',a,ab}, search on/off, all op pairs from 17 ops",
                     "thorough": "histories <= 3 entries over {a,ab,b,a\\nb}, typed prefix {'',a,ab}, search on/off, all op pairs from 17 ops"}
@@ -69,25 +70,10 @@ PARTIAL_SCOPE = ["completion menu, selection, undo stack, yank-nth-arg, operate-
                  "validators that inspect the cursor position are outside the model"]
 TECHNIQUE = "lean4-proof + differential correspondence + oracle"
 
-SERIAL = False
 
 # ------------------------------------------------------------------ scripted validator
-class ScriptedValidator(Validator):
-    """spec = [mode, needle, posmode, arg]; see VSpec in lean/Drivers/C14.lean"""
-
-    def __init__(self, spec):
-        self.spec = spec
-        self.calls = 0
-
-    def validate(self, document):
-        self.calls += 1
-        pos = verdict(self.spec, document.text)
-        if pos is not None:
-            raise ValidationError(cursor_position=pos, message="scripted")
-
-
 def verdict(spec, text):
-    """None = passes, int = reported error position (independent restatement for the oracle too)"""
+    """None = passes, int = reported error position (also used by the oracle)"""
     mode, needle, posmode, arg = spec
     if mode == 0:
         return None
@@ -99,6 +85,18 @@ def verdict(spec, text):
     if posmode == 1:
         return k + arg
     return len(text) + arg
+
+
+class ScriptedValidator(Validator):
+    """spec = [mode, needle, posmode, arg]; see VSpec in lean/Drivers/C14.lean"""
+
+    def __init__(self, spec):
+        self.spec = spec
+
+    def validate(self, document):
+        pos = verdict(self.spec, document.text)
+        if pos is not None:
+            raise ValidationError(cursor_position=pos, message="scripted")
 
 
 class GatedHistory(InMemoryHistory):
@@ -135,6 +133,13 @@ def get_loop():
     return _LOOP
 
 
+def _get_app():
+    global _APP
+    if _APP is None:
+        _APP = Application(input=DummyInput(), output=DummyOutput())
+    return _APP
+
+
 async def spin(n=3):
     for _ in range(n):
         await asyncio.sleep(0)
@@ -162,17 +167,24 @@ def vpending(app):
     return False
 
 
-def state_line(b: Buffer, h, app, ehs, out="-", pending=None):
-    if pending is None:
-        if b._load_history_task is None or not isinstance(h, GatedHistory):
-            pending = []
-        else:
-            pending = h.snapshot[h.yielded:]
-    pref = "N" if b.preferred_column is None else str(b.preferred_column)
-    return (f"{b.working_index} {b.cursor_position} {VS[b.validation_state]} {enc_opt_str(b.history_search_text)} "
-            f"{pref} {1 if b._load_history_task is not None else 0} {1 if vpending(app) else 0} "
-            f"{1 if h._loaded else 0} {1 if ehs else 0} W {enc_strs(b._working_lines)} H {enc_strs(h.get_strings())} "
-            f"S {enc_strs(h._storage)} P {enc_strs(pending)} {out}")
+def snap(b, h, app, ehs, gated):
+    if b._load_history_task is None or not gated:
+        pending = []
+    else:
+        pending = h.snapshot[h.yielded:]
+    return {"idx": b.working_index, "cur": b.cursor_position, "vstate": VS[b.validation_state],
+            "search": b.history_search_text, "pref": b.preferred_column,
+            "loading": b._load_history_task is not None, "vpending": vpending(app), "hloaded": h._loaded,
+            "ehs": bool(ehs), "work": list(b._working_lines), "hist": list(h.get_strings()),
+            "storage": list(h._storage), "pending": list(pending),
+            "text": b._working_lines[b.working_index] if -len(b._working_lines) <= b.working_index < len(b._working_lines) else None}
+
+
+def snap_line(s, out="-"):
+    pref = "N" if s["pref"] is None else str(s["pref"])
+    return (f"{s['idx']} {s['cur']} {s['vstate']} {enc_opt_str(s['search'])} {pref} {int(s['loading'])} "
+            f"{int(s['vpending'])} {int(s['hloaded'])} {int(s['ehs'])} W {enc_strs(s['work'])} H {enc_strs(s['hist'])} "
+            f"S {enc_strs(s['storage'])} P {enc_strs(s['pending'])} {out}")
 
 
 # ------------------------------------------------------------------ kind "buf"
@@ -180,8 +192,9 @@ class BufRig:
     def __init__(self, case, app):
         self.case = case
         self.app = app
+        self.gated = bool(case.get("gated", True))
         self.flags = {"ehs": bool(case["ehs"]), "vwt": bool(case["vwt"]), "keep": False}
-        self.h = (GatedHistory if case.get("gated", True) else InMemoryHistory)(list(case["hist"]))
+        self.h = (GatedHistory if self.gated else InMemoryHistory)(list(case["hist"]))
         self.val = ScriptedValidator(list(case["val"]))
         self.accepted = []
         self.b = Buffer(history=self.h, validator=self.val,
@@ -193,11 +206,11 @@ class BufRig:
         self.accepted.append(buff.document.text)
         return self.flags["keep"]
 
-    def line(self, out="-"):
-        return state_line(self.b, self.h, self.app, self.flags["ehs"], out)
+    def snap(self):
+        return snap(self.b, self.h, self.app, self.flags["ehs"], self.gated)
 
     async def apply(self, op):
-        """apply one op; return the out token"""
+        """apply one op to the real Buffer; return the out token"""
         b, k = self.b, op[0]
         if k == "ins":
             b.insert_text(op[1])
@@ -249,48 +262,27 @@ class BufRig:
             b.reset(Document(op[1], op[2]))
         elif k == "startload":
             b.load_history_if_not_yet_loaded()
-            # let the task run up to its first await (gated) / to completion (plain)
-            vw = self.flags["vwt"]
-            self.flags["vwt"] = vw  # (validator tasks, if any, are separate and reported by vpending)
-            await self._spin_loader()
+            await spin(4)
         elif k == "loadone":
             h = self.h
-            if (isinstance(h, GatedHistory) and b._load_history_task is not None
-                    and not b._load_history_task.done() and h.sem is not None
-                    and h.yielded < len(h.snapshot)):
+            if (self.gated and b._load_history_task is not None and not b._load_history_task.done()
+                    and h.sem is not None and h.yielded < len(h.snapshot)):
                 y = h.yielded
                 h.sem.release()
                 for _ in range(20):
                     await asyncio.sleep(0)
                     if h.yielded > y:
                         break
-                await asyncio.sleep(0)
+            await spin(4)
         else:
             raise ValueError(op)
         return "-"
 
-    async def _spin_loader(self):
-        # only the loader task may advance here: validator tasks are held back by running the
-        # loader task's first step explicitly is not possible, so spin and let `avalidate`
-        # lines account for validator tasks (see model_lines: startload is followed by avalidate
-        # when vwt is on)
-        await spin(3)
 
-
-def buf_model_lines(case):
-    out = ["init %d %d %s" % (case["ehs"], case["vwt"], " ".join(enc_str(x) for x in case["hist"])) if case["hist"]
-           else "init %d %d" % (case["ehs"], case["vwt"]),
-           "val %d %s %d %d" % (case["val"][0], enc_str(case["val"][1]), case["val"][2], case["val"][3])]
-    gated = case.get("gated", True)
-    for op in case["ops"]:
-        out.append(op_line(op))
-        if op[0] == "startload":
-            if not gated:
-                out.append("loadall")
-            out.append("avalidate")
-        elif op[0] == "loadone":
-            out.append("avalidate")
-    return out
+def init_lines(case):
+    hs = " ".join(enc_str(x) for x in case["hist"])
+    return [("init %d %d %s" % (case["ehs"], case["vwt"], hs)).rstrip(),
+            "val %d %s %d %d" % (case["val"][0], enc_str(case["val"][1]), case["val"][2], case["val"][3])]
 
 
 def op_line(op):
@@ -302,42 +294,59 @@ def op_line(op):
     return " ".join(str(int(x)) if isinstance(x, bool) else str(x) for x in op)
 
 
-async def buf_impl(case, app):
-    rig = BufRig(case, app)
-    out = [rig.line(), rig.line()]
+def buf_model_lines(case):
+    out = init_lines(case)
     gated = case.get("gated", True)
+    for op in case["ops"]:
+        if op[0] == "startload":
+            # the loader's first step and the validator tasks run in the same turns of the loop:
+            # only the state after all of them is observable
+            out.append("q startload")
+            if not gated:
+                out.append("q loadall")
+            out.append("avalidate")
+        elif op[0] == "loadone":
+            out.append("q loadone")
+            out.append("avalidate")
+        else:
+            out.append(op_line(op))
+    return out
+
+
+async def buf_trace(case, app):
+    """run the case on the real code: list of (op, before, after, out)"""
+    rig = BufRig(case, app)
+    s0 = rig.snap()
+    trace = [(None, None, s0, "-")]
     try:
         for op in case["ops"]:
-            if op[0] == "startload":
-                # the model splits this op: [startload, (loadall), avalidate]
-                rig.b.load_history_if_not_yet_loaded()
-                if gated:
-                    await spin(4)
-                    out.append(rig.line())          # after startload (validator tasks ran too, see below)
-                    out.append(rig.line())          # avalidate
-                else:
-                    await spin(4)
-                    ln = rig.line()
-                    # plain History.load(): startload and loadall are one atomic step of the task;
-                    # the intermediate model line is reconstructed from the final state
-                    out.append(None)
-                    out.append(ln)
-                    out.append(ln)
-                continue
-            if op[0] == "loadone":
-                await rig.apply(op)
-                ln = rig.line()
-                out.append(ln)
-                out.append(ln)
-                continue
+            before = trace[-1][2]
             o = await rig.apply(op)
-            out.append(rig.line(o))
+            trace.append((op, before, rig.snap(), o))
     finally:
         for t in list(app._background_tasks):
             t.cancel()
         if rig.b._load_history_task is not None:
             rig.b._load_history_task.cancel()
         await spin(3)
+    return trace
+
+
+def buf_lines_from_trace(case, trace):
+    gated = case.get("gated", True)
+    l0 = snap_line(trace[0][2])
+    out = [l0, l0]
+    for op, _before, after, o in trace[1:]:
+        if op[0] == "startload":
+            out.append("-")
+            if not gated:
+                out.append("-")
+            out.append(snap_line(after))
+        elif op[0] == "loadone":
+            out.append("-")
+            out.append(snap_line(after))
+        else:
+            out.append(snap_line(after, o))
     return out
 
 
@@ -348,23 +357,24 @@ KEYSEQ = {
     "prevhist": "\x1b[1;5A", "nexthist": "\x1b[1;5B", "pgup": "\x1b[5~", "pgdn": "\x1b[6~",
     "beginhist": "\x1b<", "endhist": "\x1b>", "enter": "\r",
 }
-# keys that take event.arg in the model
 ARG_KEYS = ("up", "down", "c-p", "prevhist", "nexthist")
 
 
 def key_bytes(key):
     name = key[0]
-    pre = ""
     if name == "char":
         return key[1]
+    pre = ""
     if name in ARG_KEYS and len(key) > 1 and key[1] != 1:
         a = key[1]
-        pre = "\x1b-" if a < 0 else ""
-        digits = str(abs(a))
-        if not (a == -1):
-            pre += "".join("\x1b" + d for d in digits)
-    seq = KEYSEQ["pgup" if name == "prevhist" and len(key) > 2 and key[2] else
-                 "pgdn" if name == "nexthist" and len(key) > 2 and key[2] else name]
+        if a < 0:
+            pre = "\x1b-"
+            if a != -1:
+                pre += "".join("\x1b" + d for d in str(-a))
+        else:
+            pre = "".join("\x1b" + d for d in str(a))
+    alt = len(key) > 2 and key[2]
+    seq = KEYSEQ["pgup" if name == "prevhist" and alt else "pgdn" if name == "nexthist" and alt else name]
     return pre + seq
 
 
@@ -378,9 +388,7 @@ def key_model_line(key):
 
 
 def sess_model_lines(case):
-    out = ["init %d %d %s" % (case["ehs"], case["vwt"], " ".join(enc_str(x) for x in case["hist"])) if case["hist"]
-           else "init %d %d" % (case["ehs"], case["vwt"]),
-           "val %d %s %d %d" % (case["val"][0], enc_str(case["val"][1]), case["val"][2], case["val"][3])]
+    out = init_lines(case)
     for p in case["prompts"]:
         if p.get("accept_default"):
             out.append("promptacc " + enc_str(p["default"]))
@@ -391,148 +399,108 @@ def sess_model_lines(case):
     return out
 
 
-class SessRig:
-    def __init__(self, case, inp):
-        self.case = case
-        self.h = InMemoryHistory(list(case["hist"]))
-        self.val = ScriptedValidator(list(case["val"]))
-        self.inp = inp
-        self.session = PromptSession(history=self.h, input=inp, output=DummyOutput(), validator=self.val,
-                                     enable_history_search=bool(case["ehs"]),
-                                     validate_while_typing=bool(case["vwt"]))
-        self.b = self.session.default_buffer
-        self.app = self.session.app
-
-    def line(self, out="-"):
-        return state_line(self.b, self.h, self.app, self.case["ehs"], out, pending=[])
-
-
-async def settle(task, n=6):
+async def settle(task, n=8):
     for _ in range(n):
         if task.done():
             break
         await asyncio.sleep(0)
 
 
-async def run_prompt(rig: SessRig, p, lines, events):
-    """one prompt_async() call; appends state lines (one per model line) and oracle events"""
-    sess = rig.session
-    h = rig.h
-    before_storage = list(h._storage)
-    if p.get("accept_default"):
-        task = asyncio.ensure_future(sess.prompt_async(default=p["default"], accept_default=True))
-        try:
-            res = await asyncio.wait_for(asyncio.shield(task), 10)
-            # the model line describes the state right after validate_and_handle; by now the loader
-            # has also run (it is a separate task): report the buffer fields that the loader changes
-            # as they were before it ran
-            lines.append(("accdef", rig, res))
-            events.append({"ev": "accept", "text": p["default"], "result": res, "storage_before": before_storage,
-                           "storage_after": list(h._storage), "site": "prompt(accept_default=True)"})
-        except asyncio.TimeoutError:
-            # rejected default: never returns; abort it
-            lines.append(("accdef-rej", rig, None))
-            events.append({"ev": "reject", "text": p["default"], "storage_before": before_storage,
-                           "storage_after": list(h._storage), "site": "prompt(accept_default=True)"})
-            task.cancel()
-            try:
-                await task
-            except BaseException:
-                pass
-        return
-    task = asyncio.ensure_future(sess.prompt_async(default=p["default"]))
-    # first render + loader task
-    await settle(task, 8)
-    lines.append(rig.line())
-    events.append({"ev": "start", "work": list(rig.b._working_lines), "idx": rig.b.working_index,
-                   "hist": list(h.get_strings()), "default": p["default"]})
-    done = False
-    for key in p["keys"]:
-        if done:
-            lines.append("after-accept")
-            continue
-        snap = snapshot(rig)
-        rig.inp.send_text(key_bytes(key))
-        await settle(task, 8)
-        if key[0] == "enter":
-            if not task.done():
-                # maybe rejected; give the app a little more time to finish if it is exiting
-                await settle(task, 4)
-            if rig.app.is_done or task.done():
-                res = await asyncio.wait_for(task, 10)
-                done = True
-                lines.append(rig.line("acc:" + enc_str(res)))
-                events.append({"ev": "accept", "text": snap["text"], "result": res,
-                               "storage_before": snap["storage"], "storage_after": list(h._storage),
-                               "site": "accept-line"})
-            else:
-                lines.append(rig.line("rej"))
-                events.append({"ev": "reject", "text": snap["text"], "before": snap, "after": snapshot(rig),
-                               "storage_before": snap["storage"], "storage_after": list(h._storage),
-                               "site": "accept-line"})
-        else:
-            lines.append(rig.line())
-            events.append({"ev": "key", "key": key, "before": snap, "after": snapshot(rig)})
-    if not done:
-        # abort the prompt (Control-C): nothing is accepted
-        rig.inp.send_text("\x03")
-        try:
-            await asyncio.wait_for(task, 10)
-        except KeyboardInterrupt:
-            pass
-        except asyncio.TimeoutError:
-            task.cancel()
-        events.append({"ev": "abort", "storage_before": before_storage, "storage_after": list(h._storage)})
+async def finish(task):
+    try:
+        return await asyncio.wait_for(task, 10)
+    except asyncio.TimeoutError:
+        task.cancel()
+        raise
 
 
-def snapshot(rig):
-    b = rig.b
-    return {"text": b.text, "cur": b.cursor_position, "idx": b.working_index, "work": list(b._working_lines),
-            "search": b.history_search_text, "vstate": VS[b.validation_state],
-            "storage": list(rig.h._storage), "hist": list(rig.h.get_strings())}
-
-
-async def sess_run(case):
+async def sess_trace(case):
+    """run the case on a real PromptSession: (lines, events)"""
     lines, events = [], []
     with create_pipe_input() as inp:
-        rig = SessRig(case, inp)
-        lines.append(rig.line())
-        lines.append(rig.line())
+        h = InMemoryHistory(list(case["hist"]))
+        session = PromptSession(history=h, input=inp, output=DummyOutput(),
+                                validator=ScriptedValidator(list(case["val"])),
+                                enable_history_search=bool(case["ehs"]),
+                                validate_while_typing=bool(case["vwt"]))
+        b, app = session.default_buffer, session.app
+
+        def sn():
+            return snap(b, h, app, case["ehs"], False)
+
+        l0 = snap_line(sn())
+        lines += [l0, l0]
         for p in case["prompts"]:
-            await run_prompt(rig, p, lines, events)
-    # post-process the accept_default placeholders
-    out = []
-    for ln in lines:
-        if isinstance(ln, tuple):
-            tag, rig, res = ln
-            out.append(("accdef", res) if tag == "accdef" else ("accdef-rej", None))
-        else:
-            out.append(ln)
-    return out, events
-
-
-def sess_impl(case):
-    loop = get_loop()
-    asyncio.set_event_loop(loop)
-    lines, _ = loop.run_until_complete(sess_run(case))
-    return lines
+            before = sn()
+            if p.get("accept_default"):
+                task = asyncio.ensure_future(session.prompt_async(default=p["default"], accept_default=True))
+                await settle(task, 12)
+                if task.done() or app.is_done:
+                    res = await finish(task)
+                    after = sn()
+                    lines.append(snap_line(after, "acc:" + enc_str(res)))
+                    events.append({"ev": "accept", "text": p["default"], "result": res, "before": before,
+                                   "after": after, "site": "prompt(accept_default=True)"})
+                else:
+                    after = sn()
+                    lines.append(snap_line(after, "rej"))
+                    events.append({"ev": "reject", "text": p["default"], "before": before, "after": after,
+                                   "fresh": True, "site": "prompt(accept_default=True)"})
+                    inp.send_text("\x03")
+                    try:
+                        await finish(task)
+                    except KeyboardInterrupt:
+                        pass
+                continue
+            task = asyncio.ensure_future(session.prompt_async(default=p["default"]))
+            await settle(task, 10)
+            s = sn()
+            lines.append(snap_line(s))
+            events.append({"ev": "start", "after": s, "default": p["default"]})
+            done = False
+            for key in p["keys"]:
+                if done:
+                    lines.append("after-accept")
+                    continue
+                before = sn()
+                inp.send_text(key_bytes(key))
+                await settle(task, 10)
+                if key[0] == "enter" and (task.done() or app.is_done):
+                    res = await finish(task)
+                    done = True
+                    after = sn()
+                    lines.append(snap_line(after, "acc:" + enc_str(res)))
+                    events.append({"ev": "accept", "text": before["text"], "result": res, "before": before,
+                                   "after": after, "site": "accept-line"})
+                elif key[0] == "enter":
+                    after = sn()
+                    lines.append(snap_line(after, "rej"))
+                    events.append({"ev": "reject", "text": before["text"], "before": before, "after": after,
+                                   "fresh": before["vstate"] == "U", "site": "accept-line"})
+                else:
+                    after = sn()
+                    lines.append(snap_line(after))
+                    events.append({"ev": "key", "key": key, "before": before, "after": after})
+            if not done:
+                before = sn()
+                inp.send_text("\x03")
+                try:
+                    await finish(task)
+                except KeyboardInterrupt:
+                    pass
+                events.append({"ev": "abort", "before": before, "after": sn()})
+    return lines, events
 
 
 # ------------------------------------------------------------------ plugin API
-def model_lines(case):
-    if case["kind"] == "buf":
-        return buf_model_lines(case)
-    return sess_model_lines(case)
+_CACHE = {"key": None, "val": None}
 
 
-def _get_app():
-    global _APP
-    if _APP is None:
-        _APP = Application(input=DummyInput(), output=DummyOutput())
-    return _APP
-
-
-def impl_lines(case):
+def run_real(case):
+    """trace of the real code for this case (memoised for the impl_lines / oracle pair)"""
+    key = json.dumps(case, sort_keys=True)
+    if _CACHE["key"] == key:
+        return _CACHE["val"]
     loop = get_loop()
     asyncio.set_event_loop(loop)
     if case["kind"] == "buf":
@@ -540,36 +508,26 @@ def impl_lines(case):
 
         async def go():
             with set_app(app):
-                return await buf_impl(case, app)
+                return await buf_trace(case, app)
 
-        lines = loop.run_until_complete(go())
-        return _fix_placeholders(case, lines)
-    lines = sess_impl(case)
-    return _fix_placeholders(case, lines)
+        val = loop.run_until_complete(go())
+    else:
+        val = loop.run_until_complete(sess_trace(case))
+    _CACHE["key"], _CACHE["val"] = key, val
+    return val
 
 
-def _fix_placeholders(case, lines):
-    """Lines that the real code cannot observe separately (the plain loader's intermediate state,
-    the state between validate_and_handle and the loader with accept_default, keys after the
-    prompt has returned) are taken from the model: they are marked so that the comparison
-    only checks what is observable."""
-    if all(isinstance(l, str) and l != "after-accept" for l in lines):
-        return lines
-    ml = model_lines(case)
-    mo = core.run_driver(DRIVER, ml)
-    out = []
-    for i, l in enumerate(lines):
-        if l is None or l == "after-accept":
-            out.append(mo[i] if i < len(mo) else "missing")
-        elif isinstance(l, tuple):
-            tag, res = l
-            m = mo[i] if i < len(mo) else "missing"
-            want = ("acc:" + enc_str(res)) if tag == "accdef" else "rej"
-            # observable: the result token
-            out.append(m if m.split(" ")[-1] == want else f"accept_default-mismatch {want}")
-        else:
-            out.append(l)
-    return out
+def model_lines(case):
+    if case["kind"] == "buf":
+        return buf_model_lines(case)
+    return sess_model_lines(case)
+
+
+def impl_lines(case):
+    r = run_real(case)
+    if case["kind"] == "buf":
+        return buf_lines_from_trace(case, r)
+    return r[0]
 
 
 # ------------------------------------------------------------------ generators
@@ -586,16 +544,9 @@ def exhaustive_cases(maxn):
                 for ehs in (0, 1):
                     pre = [["startload"]] + [["loadone"]] * n + ([["ins", typed]] if typed else [])
                     for o1 in PAIR_OPS:
-                        ops = pre + [o1] + PAIR_OPS
-                        # every second op from the same state would need a re-init; instead run the
-                        # pairs as separate short cases grouped by first op
-                        yield {"kind": "buf", "hist": list(hist), "ehs": ehs, "vwt": 0, "gated": True,
-                               "val": [1, "x", 1, 1], "ops": pre + [o1], "then": PAIR_OPS}
-
-
-def expand_pairs(case):
-    """a case with "then": run prefix ops, then each op of "then" from the same state (re-init)"""
-    return case
+                        for o2 in PAIR_OPS:
+                            yield {"kind": "buf", "hist": list(hist), "ehs": ehs, "vwt": 0, "gated": True,
+                                   "val": [1, "x", 1, 1], "ops": pre + [o1, o2]}
 
 
 RT = ["", "a", "ab", "b", "a\nb", "ab\nc", "abc", "ba", "é", "世a", "x", "ax"]
@@ -611,7 +562,7 @@ def rand_val(rng):
     return [m, needle, rng.randrange(3), rng.choice([-2, -1, 0, 1, 2, 3, 7])]
 
 
-def rand_buf_op(rng, st):
+def rand_buf_op(rng):
     k = rng.randrange(100)
     cnt = rng.choice([1, 1, 1, 2, 2, 3, 0, -1, 5, 10 ** 3])
     if k < 14:
@@ -640,11 +591,13 @@ def rand_buf_op(rng, st):
         return ["ehs", rng.randrange(2)]
     if k < 83:
         return ["validate", rng.randrange(2)]
-    if k < 90:
-        return ["accept", rng.randrange(2)]
+    if k < 85:
+        return ["avalidate"]
     if k < 91:
+        return ["accept", rng.randrange(2)]
+    if k < 92:
         return ["append"]
-    if k < 93:
+    if k < 94:
         t = rand_text(rng)
         return ["reset", t, rng.randrange(0, len(t) + 1)]
     if k < 96:
@@ -664,8 +617,12 @@ def rand_buf_case(rng):
         if gated:
             ops += [["loadone"]] * rng.choice([n, n, n, max(0, n - 1), n // 2, 0])
     for _ in range(rng.randrange(1, 30)):
-        ops.append(rand_buf_op(rng, None))
-        if ops[-1][0] in ("reset",) or (ops[-1][0] == "accept" and ops[-1][1] == 0):
+        op = rand_buf_op(rng)
+        ops.append(op)
+        if op[0] in ("hb", "hf") and rng.random() < 0.5:
+            # back k / forward k pairs for the oracle's round-trip clause
+            ops.append(["hf" if op[0] == "hb" else "hb", op[1]])
+        if op[0] == "reset" or (op[0] == "accept" and op[1] == 0):
             if rng.random() < 0.8:
                 ops.append(["startload"])
                 if gated:
@@ -711,10 +668,15 @@ def rand_sess_case(rng):
     prompts = []
     for _ in range(rng.randrange(1, 5)):
         if rng.random() < 0.12:
-            d = rng.choice([hist[-1]] if hist else ["a"]) if rng.random() < 0.5 else rand_text(rng)
+            d = (hist[-1] if hist else "a") if rng.random() < 0.5 else rand_text(rng)
             prompts.append({"default": d, "accept_default": True, "keys": []})
             continue
-        keys = [rand_key(rng) for _ in range(rng.randrange(1, 10))]
+        keys = []
+        for _ in range(rng.randrange(1, 10)):
+            key = rand_key(rng)
+            keys.append(key)
+            if key[0] in ("prevhist", "nexthist") and rng.random() < 0.4:
+                keys.append(["nexthist" if key[0] == "prevhist" else "prevhist", key[1], 0])
         if rng.random() < 0.9:
             keys.append(["enter"])
         prompts.append({"default": rng.choice(["", "", "", "a", "ab", "a\nb"]), "keys": keys})
@@ -727,10 +689,7 @@ def rand_sess_case(rng):
 
 def cases(tier, rng):
     maxn = 2 if tier == "quick" else 3
-    for c in exhaustive_cases(maxn):
-        base = {k: v for k, v in c.items() if k != "then"}
-        for o2 in c["then"]:
-            yield dict(base, ops=c["ops"] + [o2])
+    yield from exhaustive_cases(maxn)
     nbuf = 2500 if tier == "quick" else 60000
     for _ in range(nbuf):
         yield rand_buf_case(rng)
